@@ -63,11 +63,12 @@ class World:
             return d - _dt.timedelta(days=1), mins - 60 + 1440
         return d, mins
 
-    def place(self, d: _dt.date, mins: int, fold: int) -> Obj:
-        """the value Timezone.convert leaves: a skipped wall time is moved with datetime arithmetic, which resets the fold to 0"""
+    def place(self, d: _dt.date, mins: int, fold: int, sub: tuple[int, int] = (0, 0)) -> Obj:
+        """the value Timezone.convert leaves: a skipped wall time is moved with datetime arithmetic, which resets the fold to 0
+        (`sub`: the seconds and microseconds below the minute, carried along)"""
         if d in self.skipped and 0 <= mins < 60:
-            return self.datetime(*self.resolve(d, mins, fold), 0)
-        return self.datetime(d, mins, fold)
+            return self.datetime(*self.resolve(d, mins, fold), 0, sub=sub)
+        return self.datetime(d, mins, fold, sub=sub)
 
     def sod(self, d: _dt.date) -> tuple[int, int]:
         """(wall minutes, fold) of the first existing instant of day d"""
@@ -83,9 +84,7 @@ class World:
         raise core.Unsupported("DateTime(...) constructed directly")
 
     def _create(self, year, month, day, hour=0, minute=0, second=0, microsecond=0, tz=None, fold=1, raise_on_unknown_times=False):
-        if second or microsecond:
-            raise core.Unsupported("seconds in the scenario world")
-        return self.place(_dt.date(year, month, day), hour * 60 + minute, fold)
+        return self.place(_dt.date(year, month, day), hour * 60 + minute, fold, (second, microsecond))
 
     def date(self, d: _dt.date) -> Obj:
         def set_(year=None, month=None, day=None):
@@ -108,24 +107,25 @@ class World:
                    set=set_, replace=set_, on=set_, add=add, subtract=subtract, start_of=start_of, format=lambda f, *a, **k: _format(d, f),
                    weekday=d.weekday, isoweekday=d.isoweekday, toordinal=d.toordinal)
 
-    def datetime(self, d: _dt.date, mins: int, fold: int, log: tuple = ()) -> Obj:
+    def datetime(self, d: _dt.date, mins: int, fold: int, log: tuple = (), sub: tuple[int, int] = (0, 0)) -> Obj:
         w = self
 
         def fields(kw):
             bad = set(kw) - {"year", "month", "day", "hour", "minute", "second", "microsecond", "tz", "tzinfo", "fold"}
-            if bad or kw.get("second") or kw.get("microsecond"):
+            if bad:
                 raise core.Unsupported(f"fields {sorted(kw)} in the scenario world")
             g = lambda k, cur: cur if kw.get(k) is None else kw[k]        # noqa: E731
-            return _dt.date(g("year", d.year), g("month", d.month), g("day", d.day)), g("hour", mins // 60) * 60 + g("minute", mins % 60)
+            return _dt.date(g("year", d.year), g("month", d.month), g("day", d.day)), g("hour", mins // 60) * 60 + g("minute", mins % 60), \
+                (g("second", sub[0]), g("microsecond", sub[1]))
 
         def set_(year=None, month=None, day=None, hour=None, minute=None, second=None, microsecond=None, tz=None):
-            nd, nm = fields(dict(year=year, month=month, day=day, hour=hour, minute=minute, second=second, microsecond=microsecond))
-            return w.place(nd, nm, fold)
+            nd, nm, ns = fields(dict(year=year, month=month, day=day, hour=hour, minute=minute, second=second, microsecond=microsecond))
+            return w.place(nd, nm, fold, ns)
 
         def replace(year=None, month=None, day=None, hour=None, minute=None, second=None, microsecond=None, tzinfo=True, fold=None):
             f = vars(me)["fold"] if fold is None else fold
-            nd, nm = fields(dict(year=year, month=month, day=day, hour=hour, minute=minute, second=second, microsecond=microsecond))
-            return w.place(nd, nm, f)
+            nd, nm, ns = fields(dict(year=year, month=month, day=day, hour=hour, minute=minute, second=second, microsecond=microsecond))
+            return w.place(nd, nm, f, ns)
 
         def on(year, month, day):
             return set_(year=year, month=month, day=day)
@@ -136,7 +136,7 @@ class World:
         def add(years=0, months=0, weeks=0, days=0, hours=0, minutes=0, seconds=0, microseconds=0):
             if hours or minutes or seconds or microseconds:
                 raise core.Unsupported("clock units in the scenario world")
-            return w.place(_shift(d, years, months, weeks, days), mins, 1)
+            return w.place(_shift(d, years, months, weeks, days), mins, 1, sub)
 
         def subtract(years=0, months=0, weeks=0, days=0, hours=0, minutes=0, seconds=0, microseconds=0):
             return add(-years, -months, -weeks, -days, -hours, -minutes, -seconds, -microseconds)
@@ -161,13 +161,13 @@ class World:
             raise core.Unsupported("utcoffset() away from a repeated hour in the scenario world")
 
         me = Obj(_methods=self.meths if self.cls == "DateTime" else {}, _props=self.props if self.cls == "DateTime" else set(), _ctor=self.ctor,
-                 _natives={}, _date=d, _mins=mins, _eqkey=(d.toordinal(), mins), _types=(_dt.datetime,),
-                 year=d.year, month=d.month, day=d.day, hour=mins // 60, minute=mins % 60, second=0, microsecond=0, fold=fold,
+                 _natives={}, _date=d, _mins=mins, _sub=sub, _eqkey=(d.toordinal(), mins, sub), _types=(_dt.datetime,),
+                 year=d.year, month=d.month, day=d.day, hour=mins // 60, minute=mins % 60, second=sub[0], microsecond=sub[1], fold=fold,
                  day_of_week=d.weekday(), quarter=(d.month - 1) // 3 + 1, days_in_month=_calendar.monthrange(d.year, d.month)[1],
                  tz=self.tz, tzinfo=self.tz, timezone=self.tz, timezone_name="Scenario/Zone",
                  set=set_, replace=replace, on=on, at=at, add=add, subtract=subtract, start_of=start_of, utcoffset=utcoffset,
                  date=lambda: w.date(d), format=lambda f, *a, **k: _format(d, f), weekday=d.weekday, isoweekday=d.isoweekday,
-                 naive=lambda: Stub(_eqkey=(d.toordinal(), mins)))
+                 naive=lambda: Stub(_eqkey=(d.toordinal(), mins, sub)))
         return me
 
     def call(self, recv: Obj, name: str, args: list[Any], kws: dict[str, Any] | None = None):
